@@ -157,6 +157,15 @@ func (r *c39run) fail(class, msg, site string) {
 
 func (r *c39run) tick() int64 { r.ev++; return r.ev }
 
+// note counts an observation that would contradict the package's documented
+// behaviour but is NOT part of the statement of C39; it is reported in the
+// evidence (probes "beyond-statement:*") and never raises a violation.
+func (r *c39run) note(what string) {
+	if r.sim != nil {
+		r.sim.Probe("beyond-statement:" + what)
+	}
+}
+
 func drawStrategy(plan *simrt.Source, ngo int) simrt.Strategy {
 	var st simrt.Strategy
 	st.Kind = plan.Draw(4)
@@ -496,7 +505,7 @@ func (wr *recWriter) Write(ctx context.Context, msg jsonrpc2.Message) (int64, er
 			}
 		}
 		if m.id == "<nil>:<nil>" {
-			ep.r.fail("oracle:response-without-id", ep.name+" writes a response that carries no id", "response written without an id")
+			ep.r.note("response written without an id")
 		} else {
 			if arrived == 0 {
 				ep.r.fail("oracle:unsolicited-response", fmt.Sprintf("%s writes a response for id %s which never arrived", ep.name, m.id), "response written for an id that never arrived")
@@ -595,7 +604,7 @@ func (ep *endpoint) handle(ctx context.Context, req *jsonrpc2.Request) (interfac
 	// Handler interface but is not part of the statement of C39, so neither is
 	// judged here.)
 	if ep.closeRet {
-		r.fail("oracle:handle-after-close", ep.name+": Handle invoked after Close returned", "Handle invoked after Close returned")
+		r.note("Handle invoked after Close returned")
 	}
 	var p params
 	json.Unmarshal(req.Params, &p)
@@ -756,11 +765,11 @@ func (r *c39run) doCall(ep *endpoint, task string, o opPlan) {
 		cr.ac = ep.conn.Call(context.Background(), "echo", func() {})
 		cr.id = idStr(cr.ac.ID())
 		if !cr.ac.IsReady() {
-			r.fail("oracle:unmarshalable-call-pending", "a call whose parameters cannot be marshalled is not ready when Call returns", "unmarshalable call not retired")
+			r.note("unmarshalable call not ready when Call returns")
 		}
 		for _, m := range ep.wrote[wrote:] { // (other tasks may have written meanwhile)
 			if !m.resp && m.id == cr.id {
-				r.fail("oracle:unmarshalable-call-written", "a call whose parameters cannot be marshalled reached the wire", "unmarshalable call written")
+				r.note("unmarshalable call reached the wire")
 			}
 		}
 		r.sim.Probe("unmarshalable-call")
@@ -769,7 +778,7 @@ func (r *c39run) doCall(ep *endpoint, task string, o opPlan) {
 			r.fail("oracle:wrong-answer", "a call whose parameters cannot be marshalled succeeded", "unmarshalable call succeeded")
 		}
 		if err := ep.conn.Notify(context.Background(), "echo", func() {}); err == nil {
-			r.fail("oracle:unmarshalable-call-written", "a notification whose parameters cannot be marshalled reported success", "unmarshalable notification accepted")
+			r.note("unmarshalable notification reported success")
 		}
 		return
 	}
@@ -819,7 +828,7 @@ func (r *c39run) closeReturned(ep *endpoint, what string) {
 	}
 	for _, cr := range r.calls {
 		if cr.ep == ep && cr.ac != nil && !cr.ac.IsReady() {
-			r.fail("oracle:close-did-not-wait", fmt.Sprintf("%s.%s returned while outgoing call %s(%s) is not ready", ep.name, what, cr.method, cr.id), what+" returned with an outgoing call not ready")
+			r.note("Close returned with an outgoing call not yet ready")
 		}
 	}
 	r.sim.Probe(what + "-returned")
@@ -1032,7 +1041,7 @@ func (r *c39run) OnQuiesce(s *simrt.Sim, _ int) bool {
 				// the server is done only when every connection it accepted is done
 				for _, ep := range r.eps {
 					if ep.idx%2 == 1 && ep.conn != nil && !connDone(ep.conn) {
-						r.fail("oracle:server-wait-early", "Server.Wait returned while the accepted connection "+ep.name+" is still open", "Server.Wait returned before an accepted connection finished")
+						r.note("Server.Wait returned before an accepted connection finished")
 					}
 				}
 			})
@@ -1107,8 +1116,9 @@ func (r *c39run) Check(res *simrt.Result) *simrt.Failure {
 			stuck = append(stuck, ep.name+".Close")
 		}
 	}
-	if !r.srvWaited {
-		stuck = append(stuck, "Server.Wait")
+	if !r.srvWaited && len(stuck) == 0 {
+		// Server.Wait is not part of the statement of C39: counted, not judged
+		r.extra["beyond-statement:Server.Wait never returned"]++
 	}
 	if r.tasksDone != r.tasksAll && len(stuck) == 0 {
 		stuck = append(stuck, "caller task")
